@@ -31,6 +31,7 @@ type rxLog struct {
 	labels   []rxLabel
 	rel      []rxLabel   // labels of the release model (C08)
 	spawned  map[int]int // internally committed releases not yet begun
+	bornDead map[int]bool // throw-away nodes of AddDependency calls outside any rerunner
 	nodes    map[interface{}]int // *node -> model index
 	rrs      map[interface{}]int // *Rerunner -> model index
 	nextNode int
@@ -46,7 +47,7 @@ type rxLog struct {
 }
 
 func newRxLog(r *Rand) *rxLog {
-	return &rxLog{nodes: map[interface{}]int{}, rrs: map[interface{}]int{}, bindGo: map[int64]int{}, lastNew: map[int64]interface{}{}, inRunOf: map[int]int{}, spawned: map[int]int{}, r: r, perturb: true}
+	return &rxLog{nodes: map[interface{}]int{}, rrs: map[interface{}]int{}, bindGo: map[int64]int{}, lastNew: map[int64]interface{}{}, inRunOf: map[int]int{}, spawned: map[int]int{}, bornDead: map[int]bool{}, r: r, perturb: true}
 }
 
 func (l *rxLog) add(lab string, a, b int) { l.labels = append(l.labels, rxLabel{lab, a, b}) }
@@ -78,6 +79,9 @@ func (l *rxLog) known(kind string, a, b interface{}) bool {
 	}
 	if _, ok := l.nodes[a]; !ok {
 		return false
+	}
+	if kind == "addOut.skip" {
+		return true // the dependant may be the throw-away node of an AddDependency without rerunner
 	}
 	if b != nil {
 		if _, ok := l.nodes[b]; !ok {
@@ -161,6 +165,19 @@ func (l *rxLog) hook(kind string, a, b interface{}) {
 	case "handleRelease":
 		l.addRel("handleRelease", l.nodeOf(a), 0)
 	case "addOut.skip":
+		if _, ok := l.nodes[b]; !ok {
+			// a node that was born released (AddDependency outside any rerunner): create it released
+			idx := l.nextNode
+			l.nextNode++
+			l.nodes[b] = idx
+			l.bornDead[idx] = true
+			l.add("newNode", 0, 0)
+			l.addRel("newNode", 0, 0)
+			l.addRel("callRelease", idx, 0)
+			l.addRel("relCS", idx, 0)
+		}
+		// the invalidation side of addOut does not depend on the released check
+		l.add("addOut", l.nodeOf(a), l.nodeOf(b))
 		l.addRel("addOut", l.nodeOf(a), l.nodeOf(b))
 	case "addOut":
 		l.add("addOut", l.nodeOf(a), l.nodeOf(b))
@@ -514,7 +531,7 @@ func c04Scenario(c *Ctx, cs c04Case) (labels []rxLabel, verdict string, detail m
 // rxQuiescentCheck replays the trace up to the moment the implementation was quiescent: the model
 // must not be committed to work the implementation will never do (an invalidation of a valid
 // node, a run of a live rerunner).
-func rxQuiescentCheck(m *Model, labels []rxLabel, at int) (string, map[string]interface{}) {
+func rxQuiescentCheck(m *Model, labels []rxLabel, at int, ignore map[int]bool) (string, map[string]interface{}) {
 	if at > len(labels) {
 		at = len(labels)
 	}
@@ -529,7 +546,7 @@ func rxQuiescentCheck(m *Model, labels []rxLabel, at int) (string, map[string]in
 	flags := st["invalidated"].([]interface{})
 	for _, t := range st["pendingInv"].([]interface{}) {
 		n := int(toInt64(t))
-		if n < len(flags) && !flags[n].(bool) {
+		if n < len(flags) && !flags[n].(bool) && !ignore[n] {
 			return "impl_ne_model", map[string]interface{}{"what": "the implementation is quiescent but the model is committed to invalidating a node that is still valid: an invalidation was lost", "node": n, "state": st}
 		}
 	}
@@ -560,7 +577,7 @@ func c04One(c *Ctx, m *Model, cs c04Case) {
 		rep.Fail(verdict, nil, cs, detail)
 		return
 	}
-	if kind, d := rxQuiescentCheck(m, labels, detail["quiescent_at"].(int)); kind != "" {
+	if kind, d := rxQuiescentCheck(m, labels, detail["quiescent_at"].(int), nil); kind != "" {
 		rep.Fail(kind, nil, cs, d)
 		return
 	}
